@@ -19,8 +19,8 @@ Wts  == {"segwit", "legacy"}
 Chains == {Chain("bitcoin", w, x, c) : w \in Wts, x \in 0..1, c \in 0..1}
 \* a second network with the coin type of the first one (must be refused) and one with another coin type
 Foreign == {Chain("regtest", "segwit", 0, 0), Chain("litecoin", "segwit", 0, 0)}
-Req(op, c, n, i) == [op |-> op, net |-> c.net, wt |-> c.wt, acct |-> c.acct, ch |-> c.ch, n |-> n, idx |-> i]
-NoReq == [op |-> "none", net |-> "", wt |-> "", acct |-> 0, ch |-> 0, n |-> 0, idx |-> 0]
+Req(op, c, n, i) == [op |-> op, net |-> c.net, wt |-> c.wt, acct |-> c.acct, ch |-> c.ch, n |-> n, idx |-> i, form |-> "args"]
+NoReq == [op |-> "none", net |-> "", wt |-> "", acct |-> 0, ch |-> 0, n |-> 0, idx |-> 0, form |-> ""]
 
 Injective(S, n) == {q \in [1..n -> S] : Distinct(q)}
 Outs(st, a) ==
@@ -72,4 +72,6 @@ UsedNotHandedOut == [][(last'.a.op = "get_keys" /\ last'.ok) => \A i \in 1..Len(
 KeysPersist == [][s.keys \subseteq s'.keys /\ s.used \subseteq s'.used /\ s.accts \subseteq s'.accts]_vars
 \* refusals happen exactly where the wallet cannot serve: outside the account of a watch-only wallet, colliding coin types
 Refusals == [][~last'.ok <=> MustRefuse(cfg, s, last'.a)]_vars
+\* an answer the specification allows is never attributed to a deviation; an attributed answer is a disallowed one
+DeviationsAreViolations == [][last'.ok => Attribution(cfg, s, last'.a, last'.out) = <<>>]_vars
 =============================================================================
